@@ -193,7 +193,11 @@ func genBlockPlan(seed uint64, thorough bool) *Plan {
 		n := 1 + g.r.IntN(3)
 		for i := 0; i < n; i++ {
 			k := keys[g.r.IntN(len(keys))]
-			switch g.r.IntN(8) {
+			switch g.r.IntN(9) {
+			case 8:
+				// a flush empties the lists; whoever is blocked stays blocked and
+				// is served by the pushes that follow
+				items = append(items, cmdItem(g.pick("FLUSHDB", "FLUSHALL")))
 			case 0:
 				items = append(items, cmdItem("LTRIM", k, "1", "-1"))
 			case 1:
